@@ -74,7 +74,7 @@ func TestVerif_C14_containers_e2e(t *testing.T) {
 		}
 		x := &run{c: c, st: st}
 		x.o = e.run(c)
-		x.line = "c14dec " + st.Fmt + " " + verifh.Hex(string(st.Wire)) + " " + fin
+		x.line = "c14dec " + st.Fmt + " " + verifh.Hex(string(st.Wire)) + " " + fin + " " + verifh.IntList(c.sizes)
 		runs = append(runs, x)
 	}
 	lines := make([]string, len(runs))
